@@ -2,7 +2,7 @@
 
 // C06-H: BCJ2 decoder core on hostile four-stream input: never a panic / out-of-bounds index, the output cursor stays
 // inside the destination and every stream cursor stays inside its window - also when decode() is resumed.
-//@ {"name":"c06h_bcj2_decode_total","props":["C06","C11"],"obligation":"C06-H","timeout":2400,"mem_gb":9,"functions":["filter::bcj2::decode::Bcj2Decoder::new","filter::bcj2::decode::Bcj2Decoder::decode"],"bounds":"four stream windows of 6 arbitrary bytes each (24-byte source), window limits symbolic 0..=6; destination 6 bytes; decode() called twice (resume) with the destination re-armed; instruction pointer < 2^31; unwind 10","assumes":["ip < 2^31 (the u32 instruction pointer only overflows after 4 GiB of output)"]}
+//@ {"name":"c06h_bcj2_decode_total","props":["C06","C11"],"tier":"thorough","obligation":"C06-H","timeout":5400,"mem_gb":22,"functions":["filter::bcj2::decode::Bcj2Decoder::new","filter::bcj2::decode::Bcj2Decoder::decode"],"bounds":"four stream windows of 6 arbitrary bytes each (24-byte source), window limits symbolic 0..=6; destination 6 bytes; decode() called twice (resume) with the destination re-armed; instruction pointer < 2^31; unwind 10","assumes":["ip < 2^31 (the u32 instruction pointer only overflows after 4 GiB of output)"]}
 #[kani::proof]
 #[kani::unwind(10)]
 fn c06h_bcj2_decode_total() {
@@ -46,4 +46,48 @@ fn c06h_bcj2_decode_total() {
     }
     kani::cover!(!ok1, "decode error reported");
     kani::cover!(ok1 && d.dest() == dl, "destination filled");
+}
+
+// C11 (BCJ2, operand conversion): a CALL operand is stored big endian as an absolute address; the decoder must deliver
+// the little-endian relative value  be32(src) - (ip + 4)  - all four bytes of it, also when the destination buffer
+// ends in the middle of (or exactly behind) the operand and the rest is delivered by the next call.
+//@ {"name":"c11_bcj2_operand_conversion","props":["C11","C06"],"obligation":"C06-H","timeout":2400,"mem_gb":9,"functions":["filter::bcj2::decode::Bcj2Decoder::decode"],"bounds":"decoder resuming in the CALL-operand state (last opcode byte 0xE8) with one arbitrary 4-byte operand in the CALL window, MAIN window empty; instruction pointer any value < 2^31; first destination 0..=6 bytes (symbolic), second destination 8 bytes; unwind 10","assumes":["pre-state = what decode() leaves when it asked for more CALL-stream data (state == BCJ2_STREAM_CALL, range/code normalised)","ip < 2^31"]}
+#[kani::proof]
+#[kani::unwind(10)]
+fn c11_bcj2_operand_conversion() {
+    let op: [u8; 4] = kani::any();
+    let mut src = [0u8; 16];
+    src[4] = op[0]; src[5] = op[1]; src[6] = op[2]; src[7] = op[3];
+    let mut d = Bcj2Decoder::new();
+    // windows: MAIN = [0,0) (empty), CALL = [4,8), JUMP = [8,8), RC = [12,12)
+    d.bufs = [0, 4, 8, 12];
+    d.lims = [0, 8, 8, 12];
+    d.state = BCJ2_STREAM_CALL;
+    d.temp = [0, 0, 0, 0xE8];
+    d.range = kani::any();
+    d.code = kani::any();
+    kani::assume(d.range >= K_TOP_VALUE);
+    d.ip = kani::any();
+    kani::assume(d.ip < (1 << 31));
+    let ip0 = d.ip;
+    let want = u32::from_be_bytes(op).wrapping_sub(ip0.wrapping_add(4)).to_le_bytes();
+    let room: usize = kani::any();
+    kani::assume(room <= 6);
+    let mut out1 = [0xAAu8; 6];
+    d.set_dest(0);
+    assert!(d.decode(&mut src, &mut out1[..room]));
+    let n1 = d.dest();
+    assert!(n1 == core::cmp::min(room, 4), "C11: operand bytes delivered != min(room, 4)");
+    let mut out2 = [0x55u8; 8];
+    d.set_dest(0);
+    assert!(d.decode(&mut src, &mut out2));
+    let n2 = d.dest();
+    assert!(n1 + n2 == 4, "C11: a converted operand must be delivered as exactly four bytes");
+    let i: usize = kani::any();
+    kani::assume(i < 4);
+    let got = if i < n1 { out1[i] } else { out2[i - n1] };
+    assert!(got == want[i], "C11: BCJ2 operand byte differs from be32(src) - (ip + 4), little endian");
+    kani::cover!(room == 4, "destination ends exactly behind the operand");
+    kani::cover!(room == 2, "operand split across two calls");
+    kani::cover!(room == 6, "operand fits with room to spare");
 }
